@@ -1,5 +1,6 @@
 import JoblibProofs.Lemmas.ParallelProto
 import JoblibProofs.Lemmas.AutoBatch
+import JoblibProofs.Lemmas.ParallelSeq
 /-!
 # C09 — Parallel consumes its input lazily, boundedly and from one thread at a time
 
@@ -198,5 +199,54 @@ example : (callStart (⟨3, true, [2, 1], 0, 4, 0, -1, false, true⟩ : Cfg) 200
       ({ sched := [[], [], [], [], [], []] } : St)).1.nCompleted = 0 ∧
     (callStart (⟨3, true, [2, 1], 0, 4, 0, -1, false, true⟩ : Cfg) 200 0 ⟨30, [], -1, []⟩
       ({ sched := [[], [], [], [], [], []] } : St)).1.aborting = false := by decide
+
+
+/-! ### the sequential path (`n_jobs == 1`) -/
+
+section Sequential
+open JoblibModel.ParallelSeq
+
+/-- SEQUENTIAL IS LAZY. The invariant `SInv` of the suspended sequential generator holds when `seqStart` returns and
+after every `next()` that yields a value; under it the items taken from the input exceed the tasks executed by
+exactly the number of not yet executed items of the current re-batched tuple, at most `max batch_size 1` — whatever
+the input length. -/
+theorem sequential_is_lazy (c : Cfg) :
+    (∀ (base : Nat) (spec : CallSpec) (s₀ : St), Idle s₀ →
+      ∃ s1 bs, seqStart c base spec s₀ = (s1, { bs := bs }, none) ∧ SInv s1 { bs := bs }) ∧
+    (∀ (fuel : Nat) (s s' : St) (g g' : SGen) (v : Nat), SInv s g → seqNext (fuel + 2) s g = (s', g', .value v) →
+      SInv s' g' ∧ g'.bs = g.bs) ∧
+    (∀ (s : St) (g : SGen), SInv s g →
+      s.srcPos - s.nCompleted = g.pending.length ∧ s.srcPos - s.nCompleted ≤ max g.bs 1) := by
+  refine ⟨?_, ?_, ?_⟩
+  · intro base spec s₀ hi
+    obtain ⟨s1, bs, he, hI, _⟩ := seqStart_spec c base spec hi
+    exact ⟨s1, bs, he, hI⟩
+  · intro fuel s s' g g' v h he
+    have := seqNext_spec fuel h
+    rw [he] at this
+    exact ⟨this.2.2.1, this.2.2.2.2.1⟩
+  · intro s g h
+    obtain ⟨a, b⟩ := seq_lookahead h
+    exact ⟨a, by omega⟩
+
+/-- SEQUENTIAL: NO PULL AFTER FAILURE. Once `next()` has raised (a task failed or the input raised) or the generator
+was closed, the generator is finished: every further `next()` returns `StopIteration` and leaves the whole state —
+in particular the input position — unchanged. -/
+theorem sequential_no_pull_after_failure :
+    (∀ (fuel : Nat) (s s' : St) (g g' : SGen) (e : Exc), SInv s g → seqNext (fuel + 2) s g = (s', g', .raise e) →
+      ∀ fuel', seqNext (fuel' + 1) s' g' = (s', g', .stop)) ∧
+    (∀ (s : St) (g : SGen) (fuel' : Nat), g.live = true →
+      seqNext (fuel' + 1) (seqClose s g).1 (seqClose s g).2 = ((seqClose s g).1, (seqClose s g).2, .stop) ∧
+      (seqClose s g).1.srcPos = s.srcPos) := by
+  constructor
+  · intro fuel s s' g g' e h he fuel'
+    have := seqNext_spec fuel h
+    rw [he] at this
+    exact seqNext_dead fuel' s' this.1
+  · intro s g fuel' hl
+    rw [seqClose_live s hl]
+    exact ⟨seqNext_dead fuel' _ rfl, rfl⟩
+
+end Sequential
 
 end C09
